@@ -47,6 +47,10 @@ pub struct Case {
     /// decode with a (mutated) dictionary registered
     pub dict: Option<(DictSpec, Vec<Mutation>)>,
     pub limit: Option<u32>,
+    /// the decoder has completely decoded a valid frame (Huffman table, FSE-described sequence
+    /// tables, moved repeat offsets, checksum) before the hostile input arrives
+    #[serde(default)]
+    pub warm: bool,
 }
 
 fn mutation_strategy() -> impl Strategy<Value = Mutation> {
@@ -87,8 +91,9 @@ fn case_strategy(tier: Tier) -> impl Strategy<Value = Case> {
         entry_strategy(),
         prop::option::weighted(0.2, (dict_strategy(), prop::collection::vec(mutation_strategy(), 0..=3))),
         prop::option::weighted(0.2, prop_oneof![Just(0u32), Just(1024u32), 1u32..=10_000_000]),
+        prop::bool::weighted(0.4),
     )
-        .prop_map(|(base, other, muts, entry, dict, limit)| Case { base, other, muts, entry, dict, limit })
+        .prop_map(|(base, other, muts, entry, dict, limit, warm)| Case { base, other, muts, entry, dict, limit, warm })
 }
 
 /// byte positions of interesting fields, by class
@@ -247,6 +252,9 @@ pub fn check(case: &Case, ctx: &mut CaseCtx) -> CaseResult {
     let mut dec = FrameDecoder::new();
     if let Some(l) = case.limit {
         dec.set_max_window_size(l as u64);
+    } else if case.warm {
+        ringops::decode_drive::warm_up(&mut dec).map_err(|e| Failure::new("valid_frame_rejected", e))?;
+        ctx.feat("decoder:warm_(a_valid_frame_decoded_before)");
     }
     // hostile dictionary: arbitrary bytes through the parser; if it still parses it is registered
     if let Some((ds, dm)) = &case.dict {
@@ -334,6 +342,8 @@ pub struct HostileDictCase {
     pub rest: FrameSpec,
     pub entry: Entry,
     pub force: bool,
+    #[serde(default)]
+    pub warm: bool,
 }
 
 fn rep_first() -> impl Strategy<Value = CompSpec> {
@@ -374,8 +384,9 @@ fn hostile_dict_strategy() -> impl Strategy<Value = HostileDictCase> {
         framespec_strategy(4, 40, false),
         entry_strategy(),
         prop::bool::weighted(0.2),
+        prop::bool::weighted(0.3),
     )
-        .prop_map(|(mut dict, offsets, entropy_muts, content_keep, first, rest, entry, force)| {
+        .prop_map(|(mut dict, offsets, entropy_muts, content_keep, first, rest, entry, force, warm)| {
             // a few hundred distinct honest dictionaries (memoised by the builder): the variety that
             // matters here is in the lies told about them
             dict.seed %= 16;
@@ -384,7 +395,7 @@ fn hostile_dict_strategy() -> impl Strategy<Value = HostileDictCase> {
             dict.level = 3;
             dict.vocab %= 2;
             dict.rep_patch = None;
-            HostileDictCase { dict, offsets, entropy_muts, content_keep, first, rest, entry, force }
+            HostileDictCase { dict, offsets, entropy_muts, content_keep, first, rest, entry, force, warm }
         })
 }
 
@@ -450,6 +461,10 @@ fn check_hostile_dict(case: &HostileDictCase, ctx: &mut CaseCtx) -> CaseResult {
     ctx.feat_if(case.content_keep.is_some(), "hostile_dict:content_cut_short");
     ctx.feat_if(case.first.seqs.first().map(|q| q.ll > 0).unwrap_or(false), "hostile_dict:first_sequence_has_literals");
     let _ = dec.add_dict(parsed);
+    if case.warm {
+        ringops::decode_drive::warm_up(&mut dec).map_err(|e| Failure::new("valid_frame_rejected", e))?;
+        ctx.feat("decoder:warm_(a_valid_frame_decoded_before)");
+    }
     let bound = output_bound(&bytes);
     let (reached, errored) = if case.force {
         // the caller names the dictionary instead of the frame header
@@ -496,7 +511,7 @@ fn check_dict(case: &(DictSpec, Vec<Mutation>, u16), ctx: &mut CaseCtx) -> CaseR
 }
 
 pub fn run(eng: &Engine) {
-    eng.set_rule("deterministic layer: valid frames (three sources), blind frames with a valid magic and concatenations, mutated by a format-aware mutator that knows the walker's field map (descriptor, window/size/id bytes, block headers, literals headers, tree descriptions, jump tables, sequence counts, mode bytes, table descriptions, last byte of bit streams, checksum) plus bit flips, truncation, extension, splicing and crossing with another frame; decoded through StreamingDecoder, decode_blocks (All/UptoBlocks/UptoBytes with collect/read/collect_to_writer or no drain), decode_from_to, decode_all, decode_all_to_vec, optionally with a mutated dictionary that still parses and with a caller-set window limit; afterwards the SAME decoder is reset with a known-good frame and must decode it; plus a hostile-dictionary stage (a dictionary that still parses but carries repeat offsets of 0 / beyond its content / huge, damaged entropy tables or a content cut short, used - by id or forced - by a frame built against the honest dictionary whose first sequences use the repeat offsets with and without literals, Repeat-mode tables and treeless literals); oracle: no panic, no crash, per-case deadline (a reproducible overrun is a violation of kind hang), correct reuse; non-trivial = the input passes frame-header parsing and reaches block decoding; distinct by (input, entry) hash. The coverage-guided layer (libFuzzer + ASan + debug assertions over decode_any / decode_struct / dict_any) is run by the check script and reported in the evidence under coverage.fuzz.");
+    eng.set_rule("deterministic layer: valid frames (three sources), blind frames with a valid magic and concatenations, mutated by a format-aware mutator that knows the walker's field map (descriptor, window/size/id bytes, block headers, literals headers, tree descriptions, jump tables, sequence counts, mode bytes, table descriptions, last byte of bit streams, checksum) plus bit flips, truncation, extension, splicing and crossing with another frame; decoded through StreamingDecoder, decode_blocks (All/UptoBlocks/UptoBytes with collect/read/collect_to_writer or no drain), decode_from_to, decode_all, decode_all_to_vec, optionally with a mutated dictionary that still parses, with a caller-set window limit, and on a decoder that has completely decoded a valid frame before (Huffman table, FSE-described sequence tables, moved repeat offsets); afterwards the SAME decoder is reset with a known-good frame and must decode it; plus a hostile-dictionary stage (a dictionary that still parses but carries repeat offsets of 0 / beyond its content / huge, damaged entropy tables or a content cut short, used - by id or forced - by a frame built against the honest dictionary whose first sequences use the repeat offsets with and without literals, Repeat-mode tables and treeless literals); oracle: no panic, no crash, per-case deadline (a reproducible overrun is a violation of kind hang), correct reuse; non-trivial = the input passes frame-header parsing and reaches block decoding; distinct by (input, entry) hash. The coverage-guided layer (libFuzzer + ASan + debug assertions over decode_any / decode_struct / dict_any) is run by the check script and reported in the evidence under coverage.fuzz.");
     eng.assume("output is drained with bounded budgets and capped at 64 MiB per case so that legitimate expansion (RLE blocks) cannot be mistaken for a hang; decode_blocks(All) is used only when the frame's block headers bound the output by 64 MiB");
     let tier = eng.tier;
     let n = eng.tier.pick(60_000, 2_000_000);
@@ -525,7 +540,7 @@ fn export_seeds(eng: &Engine) {
         let fc = fs.new_tree(&mut runner).unwrap().current();
         if let Ok(b) = fc.build() {
             if b.frame.len() <= 12_000 {
-                let mut v = vec![(i % 5) as u8, (i * 7) as u8, (i >> 3) as u8, 0, (i % 3) as u8, (i % 4) as u8, 2, 0];
+                let mut v = vec![(i % 5) as u8, (i * 7) as u8, (i >> 3) as u8, 0, (i % 3) as u8, (i % 4) as u8, 2 | if i % 2 == 1 { 0x80 } else { 0 }, 0];
                 v.extend_from_slice(&b.frame);
                 let _ = std::fs::write(root.join(format!("decode_any/s{i:03}")), v);
                 n += 1;
@@ -578,7 +593,7 @@ fn export_seeds(eng: &Engine) {
                         window_desc: 0x20,
                         fcs_bytes: 0,
                         checksum: false,
-                        dict_id_bytes: 4,
+                        dict_id_bytes: 4, zero_dict_id: false,
                         blocks: vec![BlockSpec::Comp(CompSpec {
                             literals: b"abcdefghij".to_vec(),
                             lit_mode: 0,
